@@ -1572,10 +1572,25 @@ def judge_c18(ops, impl):
             else:
                 if f['base'] == 'trace':
                     bad.append((i, 'TRACE handler ran although none is configured'))
+                # "without the option TRACE is an ordinary method": served by its own registration, otherwise 404/405
+                node = decB(f['node']) if f['node'] != '-' else None
+                ent = r.table.get(node, {}).get('TRACE') if node not in (None, b'') else None
+                if f['base'].startswith('user:') and (ent is None or ent[0] != int(f['base'][5:])):
+                    bad.append((i, 'TRACE answered by %s although (%r, TRACE) is not registered (removed or never registered)' % (f['base'], node)))
+                if ent is not None and not f['base'].startswith('user:'):
+                    bad.append((i, 'hand-registered TRACE on %r answered by %s' % (node, f['base'])))
+        if f['node'] not in ('-', '') and not r.trace and decB(f['node']) in r.table:
+            has = 'TRACE' in r.table[decB(f['node'])]
+            if ('TRACE' in dec_methods(f['methods'])) != has:
+                bad.append((i, 'without the option TRACE is an ordinary method: Allow set %s of %r, registered: %s' % (f['methods'], decB(f['node']), has)))
         if f['node'] != '-' and r.trace and 'TRACE' not in dec_methods(f['methods']):
             bad.append((i, 'TRACE missing from the Allow set %s' % f['methods']))
-        if f['node'] != '-' and not r.trace and decB(f['node']) == b'' and 'TRACE' in dec_methods(f['methods']) and not any('TRACE' in t for t in r.table.values()):
-            bad.append((i, 'TRACE listed for OPTIONS * although it is neither configured nor registered'))
+        if f['node'] != '-' and not r.trace and decB(f['node']) == b'':
+            anyt = any('TRACE' in t for t in r.table.values())
+            if 'TRACE' in dec_methods(f['methods']) and not anyt:
+                bad.append((i, 'TRACE listed for OPTIONS * although it is neither configured nor registered'))
+            if 'TRACE' not in dec_methods(f['methods']) and anyt:
+                bad.append((i, 'OPTIONS * does not list TRACE although a live route has a hand-registered TRACE'))
     return bad
 
 def judge_c19(ops, impl):
